@@ -669,7 +669,9 @@ def r14b(P, R):
             continue
         sig = naming(C.expand(C.trace(pv, ident[3]["args"][0])))
         sigs[side] = sig
-        foreign = {s for s in sig if s[0] != "call" and s[0].startswith(PR) and s not in allowed_op}
+        # a further *shared* base option feeding the shared naming function reaches both sides alike (op-const-agree compares them);
+        # an option of one side's own options struct does not
+        foreign = {s for s in sig if s[0] != "call" and s[0].startswith(PR) and s not in allowed_op and s[0] != BASEOPT}
         R.check("R14-b", "op-const-name:" + side, need_op <= sig and not foreign,
                 "operation constant = (capitalised) operation name + per-kind variable suffix",
                 "%s names the operation constant from %s: %s — the constant the other side declares/exports is named by operation name + "
@@ -694,7 +696,7 @@ def r14b(P, R):
             continue
         sig = naming(C.expand(C.trace(pv, ident[3]["args"][0])))
         fsigs[side] = sig
-        extra = {s for s in sig if s not in need_fr and s != ("nitrogql_ast::base::Ident", "name")}
+        extra = {s for s in sig if s not in need_fr and s != ("nitrogql_ast::base::Ident", "name") and (s[0] == "call" or s[0] != BASEOPT)}
         R.check("R14-b", "frag-const-name:" + side, need_fr <= sig and not extra, "fragment constant = fragment name + fragment_variable_suffix",
                 "%s side names the fragment constant from %s (expected fragment name + fragment_variable_suffix, no other transformation): %s"
                 % (side, _show(sig), ("it lacks %s" % _show(need_fr - sig)) if need_fr - sig else ("it also depends on %s" % _show(extra))), loc=f.loc())
